@@ -25,12 +25,15 @@ RULE = ("in-process cases = pairs of conditions over 4 typed integer parameters 
         "against the truth values of the flagged node in all UB-free native runs")
 EXPLANATION = ("Proved (Lean, all expressions, all environments, C17 semantics with UB as 'no value'): soundness of the model of "
                "isSameExpression and isOppositeCond(isNot=false/true) under decidable side conditions, of the out-of-type-range "
-               "verdict and of the bit-and/bit-or comparison verdict; counterexample theorems where the code's rule is unsound "
+               "verdict and of the bit-and/bit-or comparison verdict, composed down to the findings the driver prints "
+               "(findings_mem, range_finding_sound_partial, comparison_finding_sound_partial: bit tests with one number token); "
+               "counterexample theorems where the code's rule is unsound "
                "(and about the pre-fix functions of the fixed findings F03a/F03c). "
                "Tie: the real functions run in-process on the real Tokenizer's AST against the model (exact agreement), the "
                "model's semantics against gcc. Partial: the theorems cover the pure integer fragment (no calls, casts, floats, "
                "pointers, followVar, containers); knownConditionTrueFalse and the flow part of multiCondition2 (modification "
-               "scan between the conditions) are only validated per generated program by execution, not proved.")
+               "scan between the conditions) are only validated per generated program by execution, not proved; isOppositeExpression "
+               "is tied but has no theorem; sufficiency of the recursion fuel is argued, not proved.")
 MODULES = ["Cppcheck.Props.C03"]
 
 # ------------------------------------------------------------------------------------------------------------------
@@ -1507,6 +1510,15 @@ def run(ctx, res):
         for _ in range(2):
             run_cli(ctx, res, 250, 32, [], "cpp")
     t3 = time.time()
+    res.assumptions = [
+        "theorem hypotheses (decidable, printed per case by drv_c03): annOK (annotations agree with the C semantics; excludes "
+        "context-dependent Known values), cmpSafe (comparisons with a Known operand are exact; excludes F03b/F03e), vtOK, "
+        "bitShape (x & n, n & x, unsigned x | n) for the Expr-level comparisonError theorem, S.lval \"0\" = 0",
+        "the fuel size e1 + size e2 of isSame / isOpp is sufficient (argued, not proved; exhaustion returns false = the conservative side)",
+        "multiCondition_*_given_unmodified: no variable of the outer condition is written between the conditions (the code's "
+        "modification scan is outside the model)",
+        "C semantics = LP64 (unix64), gcc 12 -fsanitize=undefined (trap mode) as execution oracle",
+    ]
     res.extra["phase_s"] = dict(lean=round(t1 - t0, 1), inprocess=round(t2 - t1, 1), cli=round(t3 - t2, 1))
 
 
